@@ -61,6 +61,9 @@ PROFILES = {
     'c07': dict(put=24, dele=8, batch=6, get=4, getall=1, snap=4, release=2, flush=5, crange=6, compact=1, reopen=1, scan=6, iter=16, layout=1, longiter=10),
     'c13': dict(put=26, dele=6, batch=6, get=4, getall=2, snap=3, release=2, flush=8, crange=10, compact=3, reopen=4, scan=2, iter=2, layout=8, longiter=8),
     'c19': dict(put=30, dele=8, batch=8, get=8, getall=8, snap=2, release=1, flush=6, crange=8, compact=2, reopen=1, scan=5, iter=2, layout=3, longiter=0, repair=5),
+    # c20: the c01 mix plus the lifecycle operations (harness/k2_life.h)
+    'c20': dict(put=30, dele=8, batch=8, get=14, getall=5, snap=3, release=2, flush=5, crange=6, compact=2, reopen=3, scan=3, iter=2, layout=2, longiter=0,
+                backup=5, bscan=4, copydb=2, wrongcmp=2, failopen=2, lock2=3),
     'c14': dict(put=28, dele=8, batch=8, get=3, getall=2, snap=4, release=3, flush=8, crange=12, compact=3, reopen=4, scan=1, iter=1, layout=10, longiter=0),
 }
 
@@ -89,6 +92,7 @@ def gen_history(rng, profile='c01', nops=80, cfg=None, heavy=None):
     ops = ['open']
     live_snaps = []; nsnaps = 0
     open_iters = []
+    backups = set()       # backup slots taken so far (profile c20)
     if heavy is None:
         heavy = rng.chance(1, 8)
     heavy_key = rng.choice(keys)
@@ -152,6 +156,19 @@ def gen_history(rng, profile='c01', nops=80, cfg=None, heavy=None):
                 ops.append('repair %d' % rng.below(4)); live_snaps = []
                 for k in keys: ops.append('get %s -' % khex(k))
                 ops.append('scan -'); ops.append('layout')
+        elif o == 'backup':
+            n = rng.below(3); backups.add(n)
+            ops.append('backup %d' % n)
+        elif o == 'bscan':
+            if backups:
+                ops.append('bscan %d' % rng.choice(sorted(backups)))
+        elif o in ('copydb', 'wrongcmp', 'failopen'):
+            # close + (something) + reopen: like reopen, only without long-lived iterators; snapshots die
+            if not open_iters:
+                ops.append('copydb %d' % rng.below(2) if o == 'copydb' else o); live_snaps = []
+                if rng.chance(1, 2): ops.append('layout')
+        elif o == 'lock2':
+            ops.append('lock2')
         elif o == 'scan':
             sn = str(rng.choice(live_snaps)) if live_snaps and rng.chance(1, 2) else '-'
             ops.append('%s %s' % (rng.choice(['scan', 'rscan']), sn))
@@ -179,5 +196,7 @@ def gen_history(rng, profile='c01', nops=80, cfg=None, heavy=None):
         ops.append('get %s -' % khex(k))
     for sn in live_snaps[:3]:
         ops.append('scan %d' % sn)
+    for n in sorted(backups):
+        ops.append('bscan %d' % n)
     ops.append('scan -'); ops.append('rscan -'); ops.append('layout')
     return cfg, ops, keys
